@@ -197,6 +197,8 @@ class Gen:
             opts += ["zero"]
         if "eye" in L and len(shape) == 2 and shape[0] == shape[1]:
             opts += ["eye"]
+        if "perm" in L and len(shape) in (2, 3) and all(s_ == len(shape) for s_ in shape):
+            opts += ["perm"]
         if "x" in L and shape == (self.g,):
             opts += ["x", "x"]
         if "geo" in L and shape == ():
@@ -219,6 +221,8 @@ class Gen:
             return ["zero", list(shape)]
         if k == "eye":
             return ["eye", shape[0]]
+        if k == "perm":
+            return ["perm", len(shape)]
         if k == "x":
             return ["x"]
         if k == "n":
@@ -293,6 +297,11 @@ class Gen:
         add("var", "var")
         if self.p.interior:
             add("restr", "restr")
+            add("jumpavg", "jumpavg")
+        if shape and not free:
+            add("elem_mult", "elem", 2)
+            if len(shape) == 1:
+                add("elem_div", "elem")
         if shape == ():
             add("mul", "arith", 2)
             if not free:
@@ -423,6 +432,12 @@ class Gen:
             return self.new_var(e(shape, free, d), shape)
         if op == "restr":
             return ["restr", e(shape, free, d), self.pick(["+", "-"])]
+        if op == "jumpavg":
+            return [self.pick(["jump", "avg"]), e(shape, free, d)]
+        if op == "elem_mult":
+            return ["elem_mult", e(shape, (), d), e(shape, (), d)]
+        if op == "elem_div":
+            return ["elem_div", e(shape, (), d), ["list", [self.positive(e((), (), min(d, 1))) for _ in range(shape[0])]]]
         if op == "mul":
             mask = [self.draw(st.booleans()) for _ in free]
             fa = [n for n, m in zip(free, mask) if m]
